@@ -4,7 +4,7 @@
  * same shared queue): modelled by an optional re-entrant call of queue::incoming_packet (by its contract). */
 #ifndef VF_QUEUE_FWD_STUB_H
 #define VF_QUEUE_FWD_STUB_H
-bool nondet_bool(void);
+
 struct packet nondet_packet(void);
 static inline void queue_forward_packet(struct queue *self, struct packet p)
 {
